@@ -73,7 +73,7 @@ class Spec(object):
         return '(' + self.deflist() + ')'
 
 
-def gen_struct(K, need_va=False, need_vk=False):
+def gen_struct(K, need_va=False, need_vk=False, allow_stars=True):
     """Decode kinds/defaults/stars of a signature with <= K named parameters."""
     kind = 0
     seq = []
@@ -81,8 +81,8 @@ def gen_struct(K, need_va=False, need_vk=False):
         while kind < 2 and sym.flip('adv'):
             kind += 1
         seq.append(kind)
-    va = True if need_va else sym.flip('va')
-    vk = True if need_vk else sym.flip('vk')
+    va = True if need_va else (sym.flip('va') if allow_stars else False)
+    vk = True if need_vk else (sym.flip('vk') if allow_stars else False)
     need_default = False
     defaults = []
     for k in seq:
@@ -115,14 +115,14 @@ def gen_names(spec, earlier, index, reverse_pool=False):
 
 
 def gen_sigs(count, K, total=None, star_variants=False, reverse_pool=False,
-             need_stars=()):
+             need_stars=(), allow_stars=True):
     """Decode ``count`` specs; total bounds the sum of named parameters."""
     specs = []
     earlier = []
     remaining = total if total is not None else count * K
     for j in range(count):
         nv, nk = (need_stars[j] if j < len(need_stars) else (False, False))
-        s = gen_struct(min(K, remaining), nv, nk)
+        s = gen_struct(min(K, remaining), nv, nk, allow_stars)
         remaining -= len(s.kinds)
         gen_names(s, earlier, j, reverse_pool)
         if star_variants and j > 0:
